@@ -10,7 +10,8 @@
 From Coq Require Import List NArith ZArith Lia Bool Arith.
 From Coq Require Import Init.Byte.
 From FFS Require Import Base.Res Base.Bytes Rlp.Model Rlp.Spec Rlp.Proofs.
-From FFS Require Import Tx.Model Tx.Spec Tx.Norm Tx.SignProofs Tx.RecoverModel Tx.SignProofs2.
+From FFS Require Import Crypto.Ecdsa.
+From FFS Require Import Tx.Model Tx.Spec Tx.Norm Tx.SignProofs Tx.RecoverModel Tx.SignProofs2 Tx.SignProofs3.
 Import ListNotations.
 
 (* 1. Wire format.  In every mode, for every transaction, every chain id >= 0 and every signer: the
@@ -94,12 +95,11 @@ Print Assumptions C01_recover_sign.
       SignDirect / RecoverDirect that property C05 is about: recovering returns the key's address. *)
 Theorem C01_recover_sign_keypair :
   forall (H : bytes -> bytes) (sign_direct : N -> bytes -> res sigdata)
-         (RecoverDirect : sigdata -> bytes -> Z -> res bytes) (addr_of : N -> bytes),
-  (forall d z v r s, sign_direct d z = Ok (v, r, s) -> (0 <= r)%Z /\ (0 <= s)%Z) ->
-  (forall d z v r s chain, sign_direct d z = Ok (v, r, s) -> v_legacy v ->
-     RecoverDirect (v, r, s) z chain = Ok (addr_of d) /\
-     RecoverDirect ((v - 27)%Z, r, s) z chain = Ok (addr_of d)) ->
-  forall (m : mode) (t : tx) (d : N) (chain : Z) (out : bytes),
+         (RecoverDirect : sigdata -> bytes -> Z -> res bytes) (d : N) (chain : Z) (addr : bytes),
+  (forall z v r s, sign_direct d z = Ok (v, r, s) -> (0 <= r)%Z /\ (0 <= s)%Z) ->
+  (forall z v r s, sign_direct d z = Ok (v, r, s) -> v_legacy v ->
+     RecoverDirect (v, r, s) z chain = Ok addr /\ RecoverDirect ((v - 27)%Z, r, s) z chain = Ok addr) ->
+  forall (m : mode) (t : tx) (out : bytes),
   to_ok t = true -> chain_ok chain ->
   sign_mode m t (Some (KeyPairSign H sign_direct d)) chain = Ok out ->
   (N.of_nat (length out) <= maxInt32)%N ->
@@ -107,7 +107,7 @@ Theorem C01_recover_sign_keypair :
   exists v r s, sign_direct d (H pre) = Ok (v, r, s) /\
     (v_legacy v ->
      RecoverRawTransaction H RecoverDirect out chain
-     = Ok (addr_of d, recovered_tx (format_of m t) (norm t), pre)).
+     = Ok (addr, recovered_tx (format_of m t) (norm t), pre)).
 Proof. exact recover_sign_keypair. Qed.
 Print Assumptions C01_recover_sign_keypair.
 
@@ -127,6 +127,39 @@ Proof.
   intros t. split; [apply norm_recovered_legacy|]. split; [reflexivity|apply norm_recovered_1559].
 Qed.
 Print Assumptions C01_recovered_fields.
+
+(* 7. End to end with the real signer.  KeyPair.SignDirect and SignatureData.RecoverDirect are the
+      models of pkg/secp256k1 that property C05 is proved about (Secp/Model.v), over any group [o]
+      satisfying the ECDSA group laws (secp256k1 is one: the mathematical fact in the trusted base), any
+      32-byte hash [H] (Keccak-256 in the code) and any nonce stream (btcec's RFC 6979).  For every
+      transaction, every key 1 <= d < n, every chain id in [0, 2^53] and each of the four modes: the
+      returned bytes carry a signature (R, S) in [1, n-1] with 2S <= n that verifies against d*G over
+      H of the prescribed preimage; and whenever V is 27/28 (always, except the 2^-128 event x(kG) >= n)
+      the bytes are exactly the prescribed wire format and RecoverRawTransaction with the same chain id
+      returns the address of d*G, the same field values and the preimage.  Guards: 20-byte destination
+      (Go type), |out| <= 2^31-1 (what the decoder accepts), payload shorter than 2^64 bytes. *)
+Theorem C01_sign_recover_end_to_end :
+  forall (o : group_ops), laws o -> (n o < SM.two256)%Z ->
+  forall (H : bytes -> bytes), (forall x, length (H x) = 32%nat) ->
+  forall (nonce : Z -> bytes -> nat -> Z) (fuel : nat)
+         (m : mode) (t : tx) (d : N) (chain : Z) (out : bytes),
+  (1 <= Z.of_N d < n o)%Z -> (0 <= chain <= 2 ^ 53)%Z -> to_ok t = true ->
+  sign_mode m t (Some (KeyPairSign H (secp_sign_direct o nonce fuel) d)) chain = Ok out ->
+  (N.of_nat (length out) <= maxInt32)%N ->
+  short (sp_data (payload_of m t chain)) ->
+  let fm := format_of m t in
+  let c := Z.to_N chain in
+  let pre := spec_preimage fm (norm t) c in
+  exists v r s,
+    SM.SignDirect o nonce fuel (Z.of_N d) (H pre) = Ok {| SM.sV := v; SM.sR := r; SM.sS := s |} /\
+    (1 <= r < n o)%Z /\ (1 <= s < n o)%Z /\ (2 * s <= n o)%Z /\
+    ecdsa_verify o (pub o (Z.of_N d)) (SM.hash_to_z (H pre)) r s = true /\
+    (v_legacy v ->
+       out = spec_signed fm (norm t) c (y_of v) (Z.to_N r) (Z.to_N s) /\
+       RecoverRawTransaction H (secp_RecoverDirect o H) out chain
+       = Ok (secp_address o H d, recovered_tx fm (norm t), pre)).
+Proof. exact sign_recover_secp. Qed.
+Print Assumptions C01_sign_recover_end_to_end.
 
 (* non-vacuity: an EIP-155 transfer on chain 2^53 with a constant signer meets every hypothesis of
    theorem 1, and the result is the 9-element list with V = 2^54 + 35 + 1 *)
@@ -162,4 +195,29 @@ Proof.
   cbv zeta. split; [reflexivity|]. split; [unfold chain_ok; lia|].
   eexists. split; [vm_compute; reflexivity|]. split; [vm_compute; discriminate|].
   vm_compute. reflexivity.
+Qed.
+
+(* non-vacuity of theorem 7: the 13-element toy group of Crypto/Ecdsa.v satisfies the laws; with a
+   32-byte "hash", key 5 and nonce 2 an EIP-155 signing on chain 2^53 succeeds with a 27/28 V, so every
+   hypothesis (and the V condition of the conclusion) is met *)
+Definition toyH (x : bytes) : bytes := firstn 32 (x ++ repeat x00 32).
+Lemma toyH_len x : length (toyH x) = 32%nat.
+Proof. unfold toyH. rewrite firstn_length, app_length, repeat_length. apply Nat.min_l. apply Nat.le_add_l. Qed.
+
+Example C01_nonvacuous_end_to_end :
+  let t := mkTx (Some 9%Z) (Some 20000000000%Z) None None (Some 21000%Z) (Some (repeat x35 20)) (Some 1%Z) None in
+  let nonce : Z -> bytes -> nat -> Z := fun _ _ _ => 2%Z in
+  let chain := (2 ^ 53)%Z in
+  laws Toy.ops /\ (n Toy.ops < SM.two256)%Z /\ (1 <= Z.of_N 5 < n Toy.ops)%Z /\ to_ok t = true /\
+  short (sp_data (payload_of LegacyEIP155 t chain)) /\
+  exists out v r s,
+    sign_mode LegacyEIP155 t (Some (KeyPairSign toyH (secp_sign_direct Toy.ops nonce 1) 5%N)) chain = Ok out /\
+    (N.of_nat (length out) <= maxInt32)%N /\
+    SM.SignDirect Toy.ops nonce 1 5 (toyH (spec_preimage Eip155 (norm t) (2 ^ 53))) = Ok {| SM.sV := v; SM.sR := r; SM.sS := s |} /\
+    v_legacy v.
+Proof.
+  cbv zeta. split; [exact Toy.toy_laws|]. split; [reflexivity|]. split; [vm_compute; split; congruence|].
+  split; [reflexivity|]. split; [unfold short; vm_compute; reflexivity|].
+  eexists _, _, _, _. split; [vm_compute; reflexivity|]. split; [vm_compute; discriminate|].
+  split; [vm_compute; reflexivity|]. vm_compute. auto.
 Qed.
